@@ -258,6 +258,8 @@ func checkC09(c *Ctx) {
 	checkDrainKeepsAccepted(c, "R11")
 	c.Rule("R12", "a goroutine started in a loop gets that iteration's values (shared with C05.R7): stopping the components of a table concurrently must not capture the loop variable - all goroutines would stop the last one and the others would never be stopped")
 	checkLoopGoroutineCapture(c, "R12")
+	c.Rule("R14", "the goroutine a processor starts for its listener calls Serve on every path (Listener.Stop waits for the latch only Serve closes)")
+	checkStartAlwaysServes(c, "R14")
 	c.Rule("R13", "a field that holds a running component (Start/Stop) is overwritten only when it is nil or after the old component was stopped")
 	checkComponentFieldNotOrphaned(c, "R13")
 }
@@ -1552,6 +1554,64 @@ func checkClientTableDiscipline(c *Ctx, rule string) {
 				return
 			}
 			nsweep++
+			// (c) the reader of one connection resends redirected requests through the Send of another connection of
+			// the same table, and that Send only gives up when *that* connection is asked to quit. A sweep that asks
+			// and waits connection by connection waits for a reader that is parked on a connection it has not asked
+			// yet (full queue, silent backend): every connection of the snapshot is asked to quit before the first
+			// one is waited for.
+			if send := p.Func(redisPkg, "(*client).Send"); send != nil && p.reachable([]*ssa.Function{start}, nil)[send] {
+				quitF := p.Field(redisPkg, "client", "quit")
+				cdone := p.Field(redisPkg, "client", "done")
+				askedFirst := false
+				if quitF != nil && cdone != nil {
+					var sweepRange *ssa.Range
+					derives(callOf(in).Args[0], func(v ssa.Value) bool {
+						if nx, ok := v.(*ssa.Next); ok {
+							if rg, ok := nx.Iter.(*ssa.Range); ok && rg.X == snap {
+								sweepRange = rg
+							}
+						}
+						return false
+					})
+					eachInstr(fn, func(_ *ssa.BasicBlock, _ int, x ssa.Instruction) {
+						cc := callOf(x)
+						if cc == nil || x == in || len(cc.Args) == 0 {
+							return
+						}
+						g := calleeFn(cc)
+						if g == nil || !isModFn(g) || g.Blocks == nil {
+							return
+						}
+						var rg0 *ssa.Range
+						derives(cc.Args[0], func(v ssa.Value) bool {
+							if nx, ok := v.(*ssa.Next); ok {
+								if rg, ok := nx.Iter.(*ssa.Range); ok && resolveCell(rg.X) == resolveCell(snap) {
+									rg0 = rg
+								}
+							}
+							return false
+						})
+						if rg0 == nil || sweepRange == nil || rg0 == sweepRange || !instrDominates(rg0, sweepRange) {
+							return
+						}
+						closes := false
+						for _, gf := range append([]*ssa.Function{g}, staticCalleesDeep(g, 1)...) {
+							if gf.Blocks == nil {
+								continue
+							}
+							for _, hf := range withAnon(gf) {
+								if len(p.closeSitesIn(hf, quitF)) > 0 {
+									closes = true
+								}
+							}
+						}
+						if closes && p.waitsOn(g, cdone, 3, map[*ssa.Function]bool{}) == nil {
+							askedFirst = true
+						}
+					})
+				}
+				c.Check(askedFirst, rule, fmt.Sprintf("%s terminal sweep#%d asks every connection to quit before it waits for the first", fnKey(fn), nsweep), in.Pos(), "a loop over the same snapshot closes every quit latch before the stopping loop", "the sweep asks and waits connection by connection: the reader of a connection can be parked in the Send of another connection of the table (a redirected request, that connection's queues full towards a backend that stopped answering), and that wait only ends when the other connection is asked to quit - which the sweep does only after it has waited for this one. Stop hangs, depending on the iteration order of the table")
+			}
 			site := fmt.Sprintf("%s terminal sweep#%d ranges over a snapshot read under the table mutex", fnKey(fn), nsweep)
 			snapV := stripConv(resolveCell(snap))
 			origin, _ := snapV.(ssa.Instruction)
@@ -1819,5 +1879,55 @@ func checkComponentFieldNotOrphaned(c *Ctx, rule string) {
 	}
 	if n == 0 {
 		c.OK(rule, "no component field is overwritten outside constructors", token.NoPos, "")
+	}
+}
+
+// checkStartAlwaysServes (C09.R14): listener.Stop waits for the latch that only Serve closes. The goroutine a
+// processor starts for its listener therefore calls Serve on every path - a start that waits for something else
+// first and gives up when the processor is stopped leaves Stop waiting for ever.
+func checkStartAlwaysServes(c *Ctx, rule string) {
+	p := c.P
+	n := 0
+	for _, rel := range []string{"proc/redis", "proc/tcp"} {
+		for _, fn := range p.FuncsIn(rel) {
+			if p.isTestFn(fn) || fn.Name() != "Start" || fn.Signature.Recv() == nil {
+				continue
+			}
+			cands := withAnon(fn)[1:]
+			eachInstr(fn, func(_ *ssa.BasicBlock, _ int, in ssa.Instruction) {
+				if gi, ok := in.(*ssa.Go); ok {
+					if g, _ := methodCall(&gi.Call); g != nil && g.Blocks != nil && isModFn(g) {
+						cands = append(cands, g)
+					}
+				}
+			})
+			for _, g := range cands {
+				isServe := func(in ssa.Instruction) bool {
+					cc := callOf(in)
+					if cc == nil {
+						return false
+					}
+					if cc.IsInvoke() && cc.Method.Name() == "Serve" && strings.HasSuffix(types.TypeString(cc.Value.Type(), nil), "proc.Listener") {
+						return true
+					}
+					return false
+				}
+				has := false
+				eachInstr(g, func(_ *ssa.BasicBlock, _ int, in ssa.Instruction) {
+					if isServe(in) {
+						has = true
+					}
+				})
+				if !has {
+					continue
+				}
+				n++
+				path := findPath(entryPos(g), pathQuery{target: isReturn, avoid: isServe})
+				c.Check(path == nil, rule, fmt.Sprintf("%s serves its listener on every path", fnKey(g)), g.Pos(), "every path of the goroutine calls Listener.Serve", "the goroutine started for the listener can return without calling Serve ("+p.pathString(path)+"): Listener.Stop waits for the latch only Serve closes, so stopping the processor at that point - before the condition the start waits for - never returns")
+			}
+		}
+	}
+	if n == 0 {
+		c.Unresolved(rule, "no Start method runs Listener.Serve in a goroutine")
 	}
 }
